@@ -37,6 +37,10 @@ pub fn sample_cfg(r: &mut Rng) -> EndpointCfg {
             _ => r.range(1_000_000, 4_000_000),
         };
         c.max_packet_size = c.max_packet_size.min(c.max_receive_alloc);
+        // the largest packet an endpoint sends need not be as large as what it can receive
+        if r.chance(0.4) {
+            c.max_packet_size = r.range(1500, c.max_packet_size.max(1501));
+        }
     }
     if r.chance(0.3) {
         c.keepalive = r.chance(0.7);
@@ -326,6 +330,19 @@ pub fn world_b_handshake(property: &str, scenario: &str, seed: u64, run: u64, th
                     }
                 }
             }
+            // sometimes an outage of the server's answers for up to 20 s: the first k of its 11
+            // SYN-ACK transmissions are lost, the next one gets through and must still count
+            if r.chance(0.25) {
+                let k = *r.pick(&[4u64, 8, 9, 10, 10]);
+                // (the client's own requests all arrive, so that both retry budgets start together)
+                plan.fates.remove(&format!("{}>{}", c, 0));
+                let m = plan.fates.entry(format!("{}>{}", 0, c)).or_default();
+                m.clear();
+                for ord in 0..k {
+                    m.insert(ord, Fate::dropped());
+                }
+                plan.params.insert(format!("synack_outage_ep{}", c), k as f64);
+            }
         }
     }
     let mut tag = 0u32;
@@ -528,7 +545,7 @@ pub fn world_b_lifecycle(property: &str, scenario: &str, seed: u64, run: u64, th
     let mut horizon = horizon;
     let scripted: Vec<bool> = topo.clients.iter().map(|_| r.chance(0.2)).collect();
     if scripted.iter().any(|s| *s) {
-        horizon += 50_000_000;
+        horizon += 85_000_000;
     }
     for (ci, &c) in topo.clients.iter().enumerate() {
         // scripted clients connect on the clean tail of the last fault phase
@@ -543,7 +560,9 @@ pub fn world_b_lifecycle(property: &str, scenario: &str, seed: u64, run: u64, th
             };
             let quiet = to_us(&plan.endpoints[c]).min(to_us(&plan.endpoints[0]));
             let options: Vec<u64> = [500_000u64, 1_900_000, 2_100_000, 2_500_000, 4_000_000, 12_000_000, 19_000_000].iter().cloned().filter(|o| *o + 300_000 < quiet || r.chance(0.2)).collect();
-            let tc = t0 + if options.is_empty() { 500_000 } else { *r.pick(&options) };
+            // ... or a true crossing on a clean link: both requests are under way at the same time
+            let clean_crossing = r.chance(0.4);
+            let tc = if clean_crossing { t0 + r.below(2 * latency + 20_000) } else { t0 + if options.is_empty() { 500_000 } else { *r.pick(&options) } };
             let server_first = r.chance(0.5);
             let (first, second) = if server_first { ((0usize, Some(c)), (c, None)) } else { ((c, None), (0usize, Some(c))) };
             // the first closer's Disconnect requests never arrive
@@ -551,10 +570,23 @@ pub fn world_b_lifecycle(property: &str, scenario: &str, seed: u64, run: u64, th
             lossy.drop_types = 1 << crate::world::FRAME_DISC;
             lossy.drop_types_p = 1.0;
             let (lf, lt) = if server_first { (0, c) } else { (c, 0) };
-            plan.push(t0.saturating_sub(1000), 3, Op::Link { from: Some(lf), to: Some(lt), rule: lossy });
+            if !clean_crossing {
+                plan.push(t0.saturating_sub(1000), 3, Op::Link { from: Some(lf), to: Some(lt), rule: lossy });
+            }
             let now = r.chance(0.5);
             plan.push(t0, r.u32() | 1, if now { Op::DisconnectNow { ep: first.0, to: first.1 } } else { Op::Disconnect { ep: first.0, to: first.1 } });
             plan.push(tc, r.u32() | 1, if r.chance(0.5) { Op::DisconnectNow { ep: second.0, to: second.1 } } else { Op::Disconnect { ep: second.0, to: second.1 } });
+            // often the same address comes back: a new client object while the server may still
+            // hold the closed entry, and once more after that entry's 20 s have run out
+            if r.chance(0.6) {
+                let t_gone = tc + r.range(300_000, 2_000_000);
+                plan.push(t_gone, 1, Op::Destroy { ep: c });
+                let t_r1 = t_gone + r.range(200_000, 5_000_000);
+                plan.push(t_r1, 1, Op::Create { ep: c });
+                let t_gone2 = t_r1 + r.range(19_000_000, 27_000_000);
+                plan.push(t_gone2, 1, Op::Destroy { ep: c });
+                plan.push(t_gone2 + r.range(100_000, 2_000_000), 1, Op::Create { ep: c });
+            }
         }
         for inc in 0..incarnations {
             let life_end = if inc + 1 < incarnations { t_create + r.range(2_000_000, horizon / 2) } else { horizon };
@@ -925,9 +957,22 @@ fn world_b_disconnect_reachable(property: &str, scenario: &str, seed: u64, run: 
     let latency = r.range(100, 40_000);
     plan.push(0, 0, Op::Create { ep: 0 });
     plan.push(0, 2, Op::Link { from: None, to: None, rule: clean_rule(latency) });
-    let t_create = r.below(100_000);
+    let mut t_create = r.below(100_000);
     plan.push(t_create, 1, Op::Create { ep: c });
-    let t_call = t_create + *r.pick(&[300_000u64, 800_000, 1_500_000, 1_900_000, 2_500_000, 6_000_000]);
+    let mut second_life = false;
+    if r.chance(0.4) {
+        // an earlier connection from the same address was closed by the client a little while
+        // ago: the server may still hold its closed entry (20 s) when the new one is set up, and
+        // that entry's timer runs out during the new connection's life
+        second_life = true;
+        let t_close = t_create + r.range(400_000, 1_500_000);
+        plan.push(t_close, 0x6000_0003, Op::DisconnectNow { ep: c, to: None });
+        let t_gone = t_close + r.range(300_000, 1_500_000);
+        plan.push(t_gone, 1, Op::Destroy { ep: c });
+        t_create = t_gone + r.range(200_000, 6_000_000);
+        plan.push(t_create, 1, Op::Create { ep: c });
+    }
+    let t_call = if second_life { t_create + r.range(15_000_000, 26_000_000) } else { t_create + *r.pick(&[300_000u64, 800_000, 1_500_000, 1_900_000, 2_500_000, 6_000_000]) };
     let caller_is_client = r.chance(0.6);
     let (caller, caller_to) = if caller_is_client { (c, None) } else { (0usize, Some(c)) };
     plan.push(t_call, 0x6000_0000, if r.chance(0.5) { Op::Disconnect { ep: caller, to: caller_to } } else { Op::DisconnectNow { ep: caller, to: caller_to } });
@@ -1019,6 +1064,12 @@ pub fn world_b_disconnect(property: &str, scenario: &str, seed: u64, run: u64, t
         if r.chance(0.15) {
             // crossing disconnects: no flush claim then
             plan.push(t_call + r.below(2_000_000), 0x6000_0001, Op::Disconnect { ep: other, to: other_to });
+        }
+        if r.chance(0.15) {
+            // the caller changes its mind: a second call of the other kind while the first is
+            // still being carried out
+            let t2 = t_call + r.range(1_000, 3_000_000);
+            plan.push(t2, 0x6000_0002, if r.chance(0.7) { Op::DisconnectNow { ep: caller, to: caller_to } } else { Op::Disconnect { ep: caller, to: caller_to } });
         }
         plan.push(r.below(period), r.u32() | 1, Op::StepEvery { ep: c, period_us: period, until_us: horizon });
     }
